@@ -88,10 +88,12 @@ structure Sasl where
   digest : Option (List Char) := none
   deriving DecidableEq, Repr
 
+/-- `QXmppSaslServer::create`: "PLAIN", "DIGEST-MD5", "ANONYMOUS" (spelled as character lists so that the
+kernel can evaluate concrete runs) -/
 def mechOf (name : List Char) : Option Mech :=
-  if name = "PLAIN".toList then some .plain
-  else if name = "DIGEST-MD5".toList then some .digest
-  else if name = "ANONYMOUS".toList then some .anon
+  if name = ['P', 'L', 'A', 'I', 'N'] then some .plain
+  else if name = ['D', 'I', 'G', 'E', 'S', 'T', '-', 'M', 'D', '5'] then some .digest
+  else if name = ['A', 'N', 'O', 'N', 'Y', 'M', 'O', 'U', 'S'] then some .anon
   else none
 
 /-- `QXmppSaslServerPlain::respond` -/
@@ -347,7 +349,9 @@ def deliverReply (cfg : Cfg) (fresh : List Char) (c : Conn) (i : Nat) : CRes :=
 def stampFrom (c : Conn) (st : Stanza) : List Char :=
   if st.sender ≠ [] then st.sender
   else match st.kind with
-    | .presence t => if t = "subscribe".toList ∨ t = "subscribed".toList then bareOf c.jid else c.jid
+    | .presence t =>
+      if t = ['s', 'u', 'b', 's', 'c', 'r', 'i', 'b', 'e'] ∨ t = ['s', 'u', 'b', 's', 'c', 'r', 'i', 'b', 'e', 'd'] then bareOf c.jid
+      else c.jid
     | _ => c.jid
 
 /-- `handleStanza`, `ns == ns_client` part -/
